@@ -462,6 +462,14 @@ func runProperty(p propCfg, tier string) int {
 		fmt.Println(l)
 	}
 	cov := ev["coverage"].(map[string]interface{})
+	if lh, ok := cov["label_histogram"].(map[string]map[string]int64); ok {
+		for part, ls := range lh {
+			if n := ls["inconclusive_watchdog"]; n > 0 {
+				fmt.Fprintf(os.Stderr, "vcheck: %s part %s: %d watchdog expiries without a verdict (inconclusive)\n", p.ID, part, n)
+				infra++
+			}
+		}
+	}
 	fmt.Printf("%s %s seed=%d: evaluations=%v distinct_nontrivial=%v violations=%d known=%d wall=%.1fs\n",
 		p.ID, tier, base, cov["evaluations"], cov["distinct_nontrivial"], violations, len(knownLines), time.Since(start).Seconds())
 	if violations > 0 {
